@@ -542,6 +542,34 @@ def run(ctx, rep):
             if bad:
                 rep.problem("rowwise", f"{cls} D={D}: in a population of {n_rows} rows, {bad}", dict(kind="bigbatch", cls=cls, D=D, n=n_rows, seed=ctx.seed),
                             "rowwise-bigbatch:" + cls, True, None, None, "C20 row-wise")
+    # ---------------- converged populations: rows that are close to each other (not identical), near the optimum and elsewhere in the box —
+    #                  every row is still its own row (the property says "each row's value equals the value obtained when that row is evaluated alone")
+    for cls in classes:
+        if cls in noisy_names or "Noise" in cls:
+            continue
+        for D in (2, 10):
+            try:
+                lo, hi = bounds_of(cls, meta)
+                inst0 = getattr(OPM, cls)()
+                rs = np.random.RandomState(ctx.seed * 17 + len(cls) + D)
+                centre = rs.uniform(lo, hi, size=D) * 0.5
+                centres = [centre]
+                o_ = optimum_point(cls, D) if "optimum_point" in globals() else None
+                if o_ is not None:
+                    centres.append(np.asarray(o_, dtype=np.float64) + 0.05)
+                for c_ in centres:
+                    Xc = c_[None, :] * (1.0 + 2e-6 * rs.uniform(-1, 1, size=(6, D))) + 1e-9 * rs.uniform(-1, 1, size=(6, D))
+                    yb = np.asarray(inst0(Xc.copy()), dtype=np.float64)
+                    rep.count("rowwise-cluster", (cls, D, len(centres)))
+                    for i in range(len(Xc)):
+                        ya = float(np.asarray(getattr(OPM, cls)()(Xc[i:i + 1].copy()))[0])
+                        if not (np.isfinite(yb[i]) and abs(yb[i] - ya) <= ROW_RTOL * max(1.0, abs(ya))):
+                            rep.problem("rowwise", f"{cls} D={D}: in a tight cluster of 6 rows, row {i}: {yb[i]!r} in the batch, {ya!r} alone",
+                                        dict(kind="cluster", cls=cls, D=D, x=dict(kind="explicit", rows=[[float(v).hex() for v in r] for r in Xc])),
+                                        "rowwise-cluster:" + cls, True, float(yb[i]), ya, "C20 row-wise")
+                            break
+            except Exception as e:   # noqa: BLE001
+                rep.hist("cluster_skipped", f"{cls}:{type(e).__name__}")
     rep.sample(dict(family="reference", cls="Schwefel2_6", D=10, y=[float.fromhex(h) for h in ref.get(("Schwefel2_6", 10), [])]))
 
     # ---------------- S1b: symbolic-regression functions (plain functions of x)
